@@ -35,6 +35,7 @@ def run(check: Check, repo: Repo, tier: str) -> None:
     L.printer_coverage(check, repo, model)
     L.parser_fields(check, repo, model)
     L.printer_per_return(check, repo, model)
+    L.order_agree(check, repo, model, sides=("printer",), floor=30)
     L.ws_agree(check, repo, SCOPE + ['utilities.strip_ignored_characters'])
     check.note(node_classes=len(model.classes), kinds=len(model.kinds()), lt_sites=counts)
     from sa.report import Check as _C
